@@ -102,6 +102,7 @@ func rowsEqual(a, b map[string]val.Val) bool {
 }
 
 func driveC11(o opts) error {
+	rowBigInts = true
 	db, err := c11Schema().Build()
 	if err != nil {
 		return err
@@ -131,7 +132,7 @@ func driveC11(o opts) error {
 			s0 = map[string]val.Val{}
 			for _, c := range tbl.Cols {
 				if g.Chance(0.6) {
-					s0[c.Name] = g.Value(c, u, maxn)
+					s0[c.Name] = rowValue(g, c, u, maxn)
 				} else {
 					s0[c.Name] = c.Default()
 				}
